@@ -193,7 +193,7 @@ def _parse1(t, i):
 # ----------------------------------------------------------------------------------------------------------------------
 # TLC runner
 # ----------------------------------------------------------------------------------------------------------------------
-_cov_re = re.compile(r'^<(\w+) line (\d+), col \d+ to line \d+, col \d+ of module (\w+)>: (\d+)(?::(\d+))?')
+_cov_re = re.compile(r'^<(\w+) line (\d+), col \d+ to line \d+, col \d+ of module (\w+)(?: \([\d ]+\))?>: (\d+)(?::(\d+))?')
 
 
 def run_tlc(module, cfg, cwd=SPEC, workers=16, env=None, timeout=3600, metadir=None, extra=(), heap=None,
@@ -239,8 +239,12 @@ def run_tlc(module, cfg, cwd=SPEC, workers=16, env=None, timeout=3600, metadir=N
             # "<Action line..>: distinct:total" for actions; "<Init ...>: n:m"; variables have a single number
             if b is not None:
                 key = f"{mod}.{name}"
-                prev = res['actions'].get(key, (0, 0))
-                res['actions'][key] = (max(prev[0], int(a)), max(prev[1], int(b)))
+                if m.group(0).rstrip().endswith(')>: %s:%s' % (a, b)):       # sub-action of a disjunction: sum up
+                    prev = res['actions'].get(key, (0, 0))
+                    res['actions'][key] = (prev[0] + int(a), prev[1] + int(b))
+                else:
+                    prev = res['actions'].get(key, (0, 0))
+                    res['actions'][key] = (max(prev[0], int(a)), max(prev[1], int(b)))
             continue
         m = re.match(r'^(\d+) states generated, (\d+) distinct states found', line)
         if m:
